@@ -131,7 +131,9 @@ var c03Verbatims = []string{
 	"{%endverbatimé%}", "{% endraw %}", "{% raw %}x{% endraw %}", "{%- endraw -%}", "{% endautoescape %}", "{% endblock %}{% endif %}{% endfor %}", "{{ endverbatim }}", "{% endverbatim -- %}", "{%~ endverbatim %}", "'{% endverbati' ~ 'm %}'", "{% xendverbatim %}", "{%\vendverbatim %}",
 }
 
-var c03Comments = []string{" c ", "", "\n multi\n line \n", " {{ x }} ", " {% if %} ", " # } ", " é 中 ", "-", " {# nested open ", " '\" ", " }} %} "}
+var c03Comments = []string{" c ", "", "\n multi\n line \n", " {{ x }} ", " {% if %} ", " # } ", " é 中 ", "-", " {# nested open ", " '\" ", " }} %} ",
+	// bodies that end or begin in the characters the delimiters are made of (a comment ends at the first #} and nowhere else)
+	"#", "##", "###", " x #", " y ##", "####", "{#", "#{", "}", "{", "%", "-#", "#-", " -", "--", "{{", "{%", "# #", "#\n#", "é#"}
 
 func (g *c03gen) body(depth int, path string) []gen.Node {
 	n := 1 + g.r.Intn(4)
